@@ -32,6 +32,10 @@ def clause_props(c):
     return out
 
 
+def is_format_path(cid):
+    return cid.startswith(("flowmark.linewrapping", "flowmark.formats", "flowmark.transforms", "flowmark.typography"))
+
+
 def _unit_worker(job):
     """Runs in a pool process: generate + discharge (a shard of) one unit; returns picklable records."""
     cid, shard, nshards = job
@@ -55,8 +59,11 @@ def _unit_worker(job):
         for ob in res.obligations:
             if ob.status is None:
                 continue
+            props_ = list(ob.props or [])
+            if ob.kind in ("noraise", "variant") and is_format_path(cid) and "C12" not in props_:
+                props_.append("C12")       # every no-raise / termination obligation of the formatting path carries C12
             rec = {"oid": ob.oid, "status": ob.status, "kind": ob.kind, "label": ob.label,
-                   "props": list(ob.props or []), "finding": ob.finding, "time": round(ob.time or 0, 4),
+                   "props": props_, "finding": ob.finding, "time": round(ob.time or 0, 4),
                    "backend": ob.backend, "src": (ob.src or "")[:300], "unit": cid}
             if ob.status != "discharged":
                 rec["model"] = str(ob.model)[:4000]
@@ -151,7 +158,8 @@ def check(prop, tier, verbose=False):
         traceback.print_exc()
         print("RESULT %s crashed (contracts failed to load)" % prop)
         return EXIT_CRASH
-    cids = [cid for cid, c in REGISTRY.items() if prop in clause_props(c)]
+    cids = [cid for cid, c in REGISTRY.items() if prop in clause_props(c)
+            or (prop == "C12" and is_format_path(cid) and (c.loops or c.strings == "L1"))]
     try:
         pm = importlib.import_module("props." + prop)
     except ModuleNotFoundError:
@@ -259,8 +267,17 @@ def report(prop, tier, seed, units, canaries, bounded, berr, pm, t_start, verbos
     # canaries: every one must be refuted
     bad_canaries = [c for c in canaries if c["status"] in ("accepted", "crash", "generror")]
     # output
+    # recorded witnesses are replayed on the real code: a finding is reported only while its witness still fails
+    wit = {}
+    if pm is not None and hasattr(pm, "witnesses"):
+        try:
+            wit = pm.witnesses()
+        except Exception:
+            wit = {}
+            print("CHECKER-ERROR witness replay crashed:\n" + traceback.format_exc()[-1500:])
     for f in known:
-        if f["id"] in known_hit or f.get("always_report"):
+        if f["id"] in known_hit or wit.get(f["id"]):
+            known_hit.setdefault(f["id"], [])
             print("KNOWN-FINDING: property=%s %s" % (prop, f["what"]))
     replay_dir = os.path.join(OUT, "replays")
     os.makedirs(replay_dir, exist_ok=True)
